@@ -46,9 +46,10 @@ enum ActKind : uint8_t {
 	ACT_PLAN_CLEAR,
 	ACT_PLAN_REMOVE,  // x = mask
 	ACT_REQUEST_REL,  // request the state (own id + 1 + x) mod N -- lets one sticky action ping-pong between states forever
-	ACT_REQUEST_FWD,  // x = destination; the payload is passed BY REFERENCE to library-owned storage: y % 4 = 0 control.request(), 1 pendingTransition() (guards),
+	ACT_REQUEST_FWD,  // x = destination; (y / 4) & 1: through the machine object instead of the control; the payload is passed BY REFERENCE to library-owned storage: y % 4 = 0 control.request(), 1 pendingTransition() (guards),
 	                  // 2 currentTransition(), 3 previousTransitions(); recorded in the trace as an ordinary request carrying that payload (plain changeTo if there is none)
 	ACT_LOGGER,       // x & 1: attach / detach the logger from inside the callback
+	ACT_M_REPORT,     // succeed(x) / fail(x) (y & 1) called on the MACHINE from inside the callback (also from enter / exit / reenter)
 	ACT_M_REQUEST,    // changeTo / changeWith called on the MACHINE (not the control) from inside the callback: x = destination, pay; the requester is nobody
 	ACT_COUNT
 };
@@ -133,7 +134,7 @@ inline const char* opName(uint8_t code) {
 	return n[code % OP_COUNT];
 }
 inline const char* actName(uint8_t kind) {
-	static const char* n[] = {"-", "request", "cancel", "succeed()", "fail()", "succeed(id)", "fail(id)", "plan.append", "plan.clear", "plan.remove", "request+", "request&", "logger", "machine.request"};
+	static const char* n[] = {"-", "request", "cancel", "succeed()", "fail()", "succeed(id)", "fail(id)", "plan.append", "plan.clear", "plan.remove", "request+", "request&", "logger", "machine.report", "machine.request"};
 	return n[(kind & ACT_KIND_MASK) % ACT_COUNT];
 }
 
